@@ -21,6 +21,7 @@ CONSTANTS
   TailInitPersistsZero = FALSE
   CkptCountedOnEveryReport = FALSE
   NewProcReopen = FALSE
+CONSTRAINT GuardAloReclaimNotDurable
 INVARIANTS RefinesCex InvCount InvCursor InvCursorExact InvStored InvDurable TypeOKD PrintHist
 VIEW View
 CHECK_DEADLOCK FALSE
